@@ -186,6 +186,8 @@ def run(ctx):
   for _ in range(6000 if thorough else 700):
     lines, opts = S.gen_case(rng, maxcues=3 if rng.random() < 0.97 else 40)      # now and then a file with dozens of cues
     text = S.render_srt(lines, rng, opts["eol"], opts["syntax"], opts["final_eol"])
+    if lines and not lines[0]["blank"] and rng.random() < 0.1:
+      text = "\ufeff" + text        # a UTF-8 signature, as many editors write it: not part of the first line (S.lex_srt)
     record(recs, meta, "random", text, opts, rng.sample(FPS_LIST, 2))
 
   # 3. boundary-time sweeps: every cue time is an exact frame boundary of the rate the document is written at -----
